@@ -198,7 +198,9 @@ fn geometry_bdl_plain(s: &Spec) -> String {
                 t.push_str(&format!("\"{}_CubPol\" = POLYGON\n    V1 =( 0, 0 )\n    V2 =( {}, 0 )\n    V3 =( {}, 3 )\n    V4 =( 0, 3 )\n    ..\n", sp, f(e), f(e)));
                 // azimuth of the roof = azimuth of the first edge's outward normal (relative to the space)
                 let az = edge_normal_azimuth(o[0], o[1]);
-                t.push_str(&format!("\"{}_CUB001\" = ROOF\n    ABSORPTANCE = 0.6\n    CONSTRUCTION = \"PIV por defecto\"\n    X = {}\n    Y = {}\n    Z = {}\n    AZIMUTH = {}\n    TILT = 30\n    POLYGON = \"{}_CubPol\"\n    ..\n", sp, f(o[0].0), f(o[0].1), f(s.height), f(az), sp));
+                // (every other one also says LOCATION = TOP, as a roof may: its own polygon, position and azimuth still hold)
+                let loc = if (s.outline + s.storeys) % 2 == 0 { "    LOCATION = TOP\n" } else { "" };
+                t.push_str(&format!("\"{}_CUB001\" = ROOF\n    ABSORPTANCE = 0.6\n    CONSTRUCTION = \"PIV por defecto\"\n{}    X = {}\n    Y = {}\n    Z = {}\n    AZIMUTH = {}\n    TILT = 30\n    POLYGON = \"{}_CubPol\"\n    ..\n", sp, loc, f(o[0].0), f(o[0].1), f(s.height), f(az), sp));
             } else {
                 t.push_str(&format!("\"{}_CUB001\" = ROOF\n    ABSORPTANCE = 0.6\n    CONSTRUCTION = \"PIV por defecto\"\n    LOCATION = TOP\n    ..\n", sp));
             }
